@@ -34,12 +34,8 @@ KERNEL_MAXLEN = 2500
 TRUSTED_BASE = ["lib/scheme_ref.py: reference interpreter written from R7RS (an oracle used to classify outputs, not a proof)"]
 MODEL_VOCAB_WIDE = False
 
-MANIFEST_PENDING = dict(
-    text="Coq theorems (coq/Props/C05.v, written by the integrator) over the hand-written VM model: what call/cc "
-         "captures, that a receiver returning normally is an ordinary call, that invoking k from any state restores "
-         "exactly the captured stack/registers and delivers the value, any number of times; this module ties the model "
-         "to /repo by a three-way differential on sessions of a continuation grammar and checks the implementation's "
-         "output against an independent reference interpreter with re-entrant continuations (lib/scheme_ref.py).",
+MANIFEST = dict(
+    text='Coq theorems (coq/Props/C05.v) about the VM model for ANY builtin table: call/cc captures slots 0..=sp, sp/ep/bp and the address after the call, then re-dispatches as an ordinary application; invoking a continuation from any state restores exactly the saved slots and registers, delivers the value in %acc and leaves heap, Rc payloads, globals and output untouched; it does not modify the continuation object (reusable); zero arguments is an error. Tie: generated call/cc sessions (operand/tail/nested positions, stored and re-entered continuations, later top-level forms), three-way differential + independent CPS reference interpreter as oracle.',
     design="DESIGN.md section 5 C05",
     note="The theorems are in coq/Props/C05.v (integrator); until they land that file holds a placeholder statement. "
          "The reference interpreter is an ORACLE for classifying the implementation's output, not a proof. "
